@@ -16,7 +16,7 @@ MODULES = {
             "contracts.ash", "contracts.ash_wire", "contracts.uart"],
     "C16": ["contracts.externals", "contracts.types_named", "contracts.codec_headers", "contracts.ezsp_protocol", "contracts.ezsp", "contracts.ezsp_config"],
     "C15": ["contracts.externals", "contracts.types_named", "contracts.multicast"],
-    "C19": ["contracts.externals", "contracts.types_named", "contracts.application"],
+    "C19": ["contracts.externals", "contracts.types_named", "contracts.application", "contracts.codec_headers", "contracts.ezsp_protocol"],
     "C17": ["contracts.externals", "contracts.types_named", "contracts.codec_headers", "contracts.ezsp_protocol", "contracts.ezsp", "contracts.ezsp_events"],
     "C13": ["contracts.externals", "contracts.types_named", "contracts.application", "contracts.app_callbacks"],
     "C12": ["contracts.externals", "contracts.types_named", "contracts.application", "contracts.codec_headers", "contracts.ezsp_protocol", "contracts.ezsp", "contracts.app_send", "contracts.ezsp_accessors"],
